@@ -103,6 +103,7 @@ func registerIntrinsics(ex *Explorer) {
 		if c.IsConst() {
 			if !c.B {
 				in.flushAsserts()
+				in.constViolated = true
 				in.reportViolation(id, "", nil)
 			}
 			return nil
